@@ -79,7 +79,51 @@ def shift(rects, op, n_rows, n_cols):
     return out
 
 
+def parse_rng(text):
+    from numbers_parser import xl_cell_to_rowcol
+    a, b = text.split(":")
+    (r0, c0), (r1, c1) = xl_cell_to_rowcol(a), xl_cell_to_rowcol(b)
+    return (r0, c0, r1, c1)
+
+
+def run_fixture(case):
+    """history that starts from a document authored in Numbers which already holds merged rectangles: merge one more disjoint
+    rectangle with the library, save, reopen - the old rectangles and the new one are all there"""
+    import warnings
+    from numbers_parser import Document
+    from bounded import docsnap
+    doc, why = docsnap.open_quiet(case["fixture"])
+    if doc is None or why == "unsupported-version":
+        return None  # a document the library itself declares unsupported (its version warning): outside the property
+    with warnings.catch_warnings():
+        warnings.simplefilter("ignore")
+        t = doc.sheets[case["sheet"]].tables[case["table"]]
+        old = [parse_rng(x) for x in t.merge_ranges]
+        if not old:
+            return {"detail": f"{os.path.basename(case['fixture'])}: the fixture no longer reports its merged rectangles"}
+        free = [(r, c, r + dr, c + dc) for dr, dc in ((0, 1), (1, 0), (1, 1)) for r in range(t.num_rows - dr) for c in range(t.num_cols - dc)
+                if all(disjoint((r, c, r + dr, c + dc), x) for x in old)]
+        if not free:
+            return None
+        new = free[case["pick"] % len(free)]
+        what = f"{os.path.basename(case['fixture'])} [{t.name}] (already merged: {[rng(x) for x in old]}) after merging {rng(new)}"
+        t.merge_cells(rng(new))
+        err = picture(t, old + [new], {}, f"open document {what}")
+        if err:
+            return {"detail": err}
+        with tempfile.TemporaryDirectory() as td:
+            p = os.path.join(td, "f.numbers")
+            doc.save(p)
+            t2 = Document(p).sheets[case["sheet"]].tables[case["table"]]
+            err = picture(t2, old + [new], {}, f"reopened {what}")
+            if err:
+                return {"detail": err, "class": "loaded-document"}
+    return None
+
+
 def run_case(case):
+    if "fixture" in case:
+        return run_fixture(case)
     from numbers_parser import Document
     n = case["size"]
     doc = Document(num_rows=n, num_cols=n)
@@ -201,6 +245,15 @@ def main():
             edits.append({"size": n, "rects": [list(x)], "then": list(op)})
     rnd.shuffle(edits)
     cases += edits[: a.edits]
+    # documents authored in Numbers that already hold merged rectangles (merge owner records + region map)
+    import numbers_parser
+    data = os.path.join(os.path.dirname(os.path.dirname(os.path.dirname(numbers_parser.__file__))), "tests", "data")
+    for name, sheet, table in (("test-4.numbers", 0, 0), ("test-9.numbers", 0, 0), ("test-9.numbers", 1, 0), ("issue-77.numbers", 0, 0),
+                               ("issue-18.numbers", 0, 0), ("test-titles.numbers", 0, 0)):
+        f = os.path.join(data, name)
+        if os.path.exists(f):
+            for pick in (0, 3, 11):
+                cases.append({"fixture": f, "sheet": sheet, "table": table, "pick": pick})
     return common.run(cases, run_case)
 
 
